@@ -15,9 +15,9 @@
 package main
 
 import (
+	nativeEcdsa "crypto/ecdsa"
 	"crypto/sha256"
 	"crypto/sha512"
-	nativeEcdsa "crypto/ecdsa"
 	"encoding/hex"
 	"fmt"
 	"hash"
@@ -438,8 +438,21 @@ func runC01(c *Ctx) {
 			p, s := mkParams(fam, 2, 5), stream
 			jobs = append(jobs, func(o *jobOut) { c01SchnorrVanilla(o, c.Seed, s, k, p) })
 			stream++
-			p, s = mkParams(fam, 2, 5), stream
-			jobs = append(jobs, func(o *jobOut) { c01SchnorrBIP340(o, c.Seed, s, p) })
+			pb, sb := mkParams(fam, 2, 5), stream
+			jobs = append(jobs, func(o *jobOut) { c01SchnorrBIP340(o, c.Seed, sb, pb) })
+			stream++
+		}
+		// explicitly non-ideal MSPs: a holder that owns several rows and signs
+		for i := range 2 {
+			ids := genIDs(r, 3, 0)
+			p, s := mkParams("th", 3, 3), stream
+			p.spec = fmt.Sprintf("bool:or(and(%d,%d),and(%d,%d))", ids[0], ids[1], ids[0], ids[2])
+			p.qmode = 1 + i // all holders / random non-minimal: the repeated holder is in the quorum
+			if i == 0 {
+				jobs = append(jobs, func(o *jobOut) { c01SchnorrVanilla(o, c.Seed, s, k, p) })
+			} else {
+				jobs = append(jobs, func(o *jobOut) { c01ECDSA(o, c.Seed, s, k, cK256, "softspoken", "sha256", p) })
+			}
 			stream++
 		}
 		for _, fam := range []string{"th", "bool", "cnf"} {
